@@ -159,9 +159,6 @@ theorem normIdx_nat (n k : Nat) (h : k ≤ n) : normIdx n (k : Int) = k := by
 
 /-! ### FIX frames -/
 
-/-- `8=ver␁9=ds␁` -/
-def fixHeader (ver ds : Bytes) : Bytes := [56, 61] ++ ver ++ [1, 57, 61] ++ ds ++ [1]
-
 theorem fixHeader_length (ver ds : Bytes) : (fixHeader ver ds).length = ver.length + ds.length + 6 := by
   simp [fixHeader]; omega
 
@@ -222,28 +219,47 @@ theorem fixDeser_header (ver ds tail : Bytes) (hv : 61 ∉ ver) (hne : ds ≠ []
       unfold pySliceTo pySliceFrom
       rw [normIdx_nat _ _ (by omega)]
 
-/-- the parts `(ver, ds, body)` of a byte string of the shape `8=ver␁9=ds␁body` (`ver`, `ds` free of SOH) -/
-def fixParts (f : Bytes) : Option (Bytes × Bytes × Bytes) :=
-  match f with
-  | 56 :: 61 :: r =>
-    match r.dropWhile (· != 1) with
-    | 1 :: 57 :: 61 :: r2 =>
-      match r2.dropWhile (· != 1) with
-      | 1 :: body => some (r.takeWhile (· != 1), r2.takeWhile (· != 1), body)
-      | _ => none
-    | _ => none
-  | _ => none
+theorem findAux_cons_false (needle : Bytes) (x : Nat) (xs : Bytes) (off : Nat) (h : needle.isPrefixOf (x :: xs) = false) :
+    findAux needle (x :: xs) off = findAux needle xs (off + 1) := by
+  simp [findAux, h]
 
-/-- **well-formed FIX frame** (as far as framing is concerned): `8=ver␁9=n␁` followed by exactly `n` bytes that start with
-    `35=` and 7 more bytes (the `10=xxx␁` trailer); `ver` contains no `=`; `n` is written in decimal digits; the first `35=`
-    of the frame is that MsgType field. -/
-def wfFixFrame (f : Bytes) : Bool :=
-  match fixParts f with
-  | some (ver, ds, body) =>
-      ver.all (· != 61) && !ds.isEmpty && ds.all isDigit && tag35.isPrefixOf body
-      && body.length == digitsVal ds + 7
-      && (find (fixHeader ver ds ++ [51, 53]) tag35 0 == none)
-  | none => false
+/-- a run of bytes without `=` followed by two more non-`=` bytes contains no start of an occurrence of `35=` -/
+theorem findAux_tag35_skip : ∀ (l : Bytes) (t0 t1 : Nat) (T : Bytes) (off : Nat), 61 ∉ l → t0 ≠ 61 → t1 ≠ 61 →
+    findAux tag35 (l ++ t0 :: t1 :: T) off = findAux tag35 (t0 :: t1 :: T) (off + l.length) := by
+  intro l
+  induction l with
+  | nil => intro t0 t1 T off _ _ _; simp
+  | cons v l ih =>
+    intro t0 t1 T off h h0 h1
+    have hl : 61 ∉ l := fun e => h (by simp [e])
+    have hp : tag35.isPrefixOf (v :: (l ++ t0 :: t1 :: T)) = false := by
+      cases l with
+      | nil => simp [tag35, List.isPrefixOf]; intro _ _; exact fun e => h1 e.symm
+      | cons w l' =>
+        cases l' with
+        | nil => simp [tag35, List.isPrefixOf]; intro _ _; exact fun e => h0 e.symm
+        | cons w2 l'' =>
+          have : w2 ≠ 61 := fun e => h (by simp [e])
+          simp [tag35, List.isPrefixOf]; intro _ _; exact fun e => this e.symm
+    rw [List.cons_append, findAux_cons_false _ _ _ _ hp, ih t0 t1 T (off + 1) hl h0 h1]
+    have : off + 1 + l.length = off + (v :: l).length := by simp; omega
+    rw [this]
+
+theorem find_header_none (ver ds : Bytes) (hv : 61 ∉ ver) (hd : ∀ d ∈ ds, isDigit d = true) :
+    find (fixHeader ver ds ++ [51, 53]) tag35 0 = none := by
+  have hd61 : 61 ∉ ds := by intro h; have := hd 61 h; simp [isDigit] at this
+  rw [find_zero]
+  have e : fixHeader ver ds ++ [51, 53] = 56 :: 61 :: (ver ++ 1 :: 57 :: (61 :: (ds ++ [1, 51, 53]))) := by
+    simp [fixHeader]
+  rw [e]
+  have s1 : ∀ (x : Nat) (xs : Bytes) (off : Nat), x ≠ 51 → findAux tag35 (x :: xs) off = findAux tag35 xs (off + 1) := by
+    intro x xs off hx
+    have : tag35.isPrefixOf (x :: xs) = false := by simp [tag35, List.isPrefixOf]; intro e; exact absurd e.symm hx
+    simp [findAux, this]
+  rw [s1 _ _ _ (by decide), s1 _ _ _ (by decide), findAux_tag35_skip ver 1 57 _ _ hv (by decide) (by decide),
+    s1 _ _ _ (by decide), s1 _ _ _ (by decide), s1 _ _ _ (by decide),
+    findAux_tag35_skip ds 1 51 [53] _ hd61 (by decide) (by decide)]
+  simp [findAux, tag35, List.isPrefixOf]
 
 theorem fixParts_spec {f ver ds body : Bytes} (h : fixParts f = some (ver, ds, body)) :
     f = fixHeader ver ds ++ body := by
@@ -273,12 +289,12 @@ theorem wfFixFrame_parts {f : Bytes} (h : wfFixFrame f = true) : ∃ ver ds rest
   split at h
   · next ver ds body hp =>
     simp only [Bool.and_eq_true, List.all_eq_true, bne_iff_ne, ne_eq, Bool.not_eq_true', beq_iff_eq] at h
-    obtain ⟨⟨⟨⟨⟨hv, hne⟩, hd⟩, hpre⟩, hlen⟩, hfind⟩ := h
+    obtain ⟨⟨⟨⟨hv, hne⟩, hd⟩, hpre⟩, hlen⟩ := h
     rw [List.isPrefixOf_iff_prefix] at hpre
     obtain ⟨rest, hrest⟩ := hpre
-    refine ⟨ver, ds, rest, ?_, ?_, ?_, hd, ?_, hfind⟩
+    have hv' : 61 ∉ ver := fun h61 => hv 61 h61 rfl
+    refine ⟨ver, ds, rest, ?_, hv', ?_, hd, ?_, find_header_none ver ds hv' hd⟩
     · rw [hrest]; exact fixParts_spec hp
-    · intro h61; exact hv 61 h61 rfl
     · intro h0; subst h0; simp at hne
     · rw [hrest]; exact hlen
   · simp at h
@@ -367,8 +383,9 @@ theorem fix_msgType {f ver ds ty rest : Bytes} (h : wfFixFrame f = true)
   have hf := fixParts_spec hp
   unfold wfFixFrame at h
   rw [hp] at h
-  simp only [Bool.and_eq_true, beq_iff_eq] at h
-  have hfirst : find (fixHeader ver ds ++ [51, 53]) tag35 0 = none := h.2
+  simp only [Bool.and_eq_true, List.all_eq_true, bne_iff_ne, ne_eq] at h
+  have hfirst : find (fixHeader ver ds ++ [51, 53]) tag35 0 = none :=
+    find_header_none ver ds (fun h61 => h.1.1.1.1 61 h61 rfl) h.1.1.2
   have hl := fixHeader_length ver ds
   have h35 : find f tag35 0 = some (fixHeader ver ds).length := by
     rw [find_zero] at hfirst ⊢
